@@ -34,7 +34,7 @@ class Candset(Component):
     rule = ">=1 candidate row kept and >=1 dropped"
 
     def examples(self, tier):
-        return 200 if tier == "quick" else 1500
+        return 400 if tier == "quick" else 1500
 
     def strategy(self, tier):
         return candset_case(tier)
@@ -107,7 +107,7 @@ class OverlapExact(Component):
     rule = "a token-sharing pair on each side of the predicate"
 
     def examples(self, tier):
-        return 200 if tier == "quick" else 1500
+        return 400 if tier == "quick" else 1500
 
     def strategy(self, tier):
         return overlap_case(tier)
